@@ -129,23 +129,31 @@ End Gen.
 Record rstate := mkR {
   r_version : Z;
   r_offset : Z;                       (* Reader.offset *)
+  r_lag : Z;                          (* Reader.lag *)
+  r_call : option Z;                  (* the FetchMessage call in progress: its snapshot of Reader.version *)
   r_queue : list (Z * gout);          (* Reader.msgs: (version, item) *)
   r_gens : list (Z * gen);            (* every generation ever started, newest first *)
   r_delivered : list msg              (* returned by FetchMessage since the last (re)start *)
 }.
 
-Definition r_init : rstate := mkR 0 FirstOffset [] [] [].
+Definition r_init : rstate := mkR 0 FirstOffset 0 None [] [] [].
 
 Inductive label :=
-| LBegin                      (* FetchMessage is entered: starts generation 1 when version = 0 *)
-| LTake                       (* FetchMessage receives the head of the queue *)
-| LSetOffset (o : Z)
+| LBegin                      (* FetchMessage is entered: starts generation 1 when version = 0, THEN
+                                 takes its snapshot of the version *)
+| LTake                       (* the call in progress receives the head of the queue *)
+| LAbort                      (* the call in progress gives up (its context expired) *)
+| LSetOffset (o : Z)          (* SetOffset; not while a FetchMessage call is in progress (one user goroutine) *)
 | LGen (v : Z) (ev : gev) (k : nat).  (* generation v handles ev and sends its first k items
                                           (k < all only for a cancelled generation, which then exits) *)
 
+(* Reader.start: cancels the running generation, version+1, a new generation at Reader.offset *)
 Definition r_start (s : rstate) : rstate :=
-  mkR (r_version s + 1) (r_offset s) (r_queue s)
+  mkR (r_version s + 1) (r_offset s) (r_lag s) (r_call s) (r_queue s)
       ((r_version s + 1, gen_start (r_offset s)) :: r_gens s) [].
+
+Definition set_call (s : rstate) (c : option Z) : rstate :=
+  mkR (r_version s) (r_offset s) (r_lag s) c (r_queue s) (r_gens s) (r_delivered s).
 
 Fixpoint find_gen (v : Z) (gs : list (Z * gen)) {struct gs} : option gen :=
   match gs with
@@ -169,24 +177,40 @@ Inductive outcome :=
 
 Definition r_step (s : rstate) (l : label) : outcome :=
   match l with
-  | LBegin => if r_version s =? 0 then RState (r_start s) None else RState s None
+  | LBegin =>
+    (* if r.version == 0 { r.start(...) }; version := r.version *)
+    let s1 := if r_version s =? 0 then r_start s else s in
+    RState (set_call s1 (Some (r_version s1))) None
   | LTake =>
-    match r_queue s with
-    | [] => RStuck
-    | (v, item) :: q =>
-      if r_version s <=? v then
-        match item with
-        | OMsg g _ =>
-          RState (mkR (r_version s) (g_off g + 1) q (r_gens s) (r_delivered s ++ [g])) (Some item)
-        | OErr _ => RState (mkR (r_version s) (r_offset s) q (r_gens s) (r_delivered s)) (Some item)
-        end
-      else RState (mkR (r_version s) (r_offset s) q (r_gens s) (r_delivered s)) None
+    match r_call s with
+    | None => RStuck
+    | Some snap =>
+      match r_queue s with
+      | [] => RStuck
+      | (v, item) :: q =>
+        if snap <=? v then
+          (* m.version >= version: the call returns the item; Reader.offset and Reader.lag follow
+             only when the version is still the snapshot *)
+          match item with
+          | OMsg g hwm =>
+            if snap =? r_version s then
+              RState (mkR (r_version s) (g_off g + 1) (hwm - (g_off g + 1)) None q (r_gens s) (r_delivered s ++ [g])) (Some item)
+            else RState (mkR (r_version s) (r_offset s) (r_lag s) None q (r_gens s) (r_delivered s)) (Some item)
+          | OErr _ => RState (mkR (r_version s) (r_offset s) (r_lag s) None q (r_gens s) (r_delivered s)) (Some item)
+          end
+        else RState (mkR (r_version s) (r_offset s) (r_lag s) (r_call s) q (r_gens s) (r_delivered s)) None
+      end
     end
+  | LAbort => match r_call s with None => RStuck | Some _ => RState (set_call s None) None end
   | LSetOffset o =>
-    if o =? r_offset s then RState s None
-    else
-      let s1 := mkR (r_version s) o (r_queue s) (r_gens s) (r_delivered s) in
-      if r_version s =? 0 then RState s1 None else RState (r_start s1) None
+    match r_call s with
+    | Some _ => RStuck
+    | None =>
+      if o =? r_offset s then RState s None
+      else
+        let s1 := mkR (r_version s) o (r_lag s) (r_call s) (r_queue s) (r_gens s) (r_delivered s) in
+        if r_version s =? 0 then RState s1 None else RState (r_start s1) None
+    end
   | LGen v ev k =>
     match find_gen v (r_gens s) with
     | None => RStuck
@@ -197,7 +221,7 @@ Definition r_step (s : rstate) (l : label) : outcome :=
         if (Nat.ltb k (length outs)) && (r_version s <=? v) then RStuck
         else
           let g'' := if Nat.ltb k (length outs) then mkGen PDone (g_offset g') (g_conn g') 0 else g' in
-          RState (mkR (r_version s) (r_offset s)
+          RState (mkR (r_version s) (r_offset s) (r_lag s) (r_call s)
                       (r_queue s ++ map (fun o => (v, o)) (firstn k outs))
                       (set_gen v g'' (r_gens s)) (r_delivered s)) None
       end
